@@ -58,6 +58,7 @@ const (
 	clsLeafSpurious     = "C19/leaf/error-response-without-failure"
 	clsLeafBadReq       = "C19/leaf/rejected-request-answered-as-success"
 	clsLeafIncomplete   = "C19/leaf/response-not-marked-completed"
+	clsLeafEarly        = "C19/leaf/response-before-shard-stage-finished"
 )
 
 const (
@@ -67,17 +68,23 @@ const (
 	leafLimit    = 20             // max series per query: the big shard exceeds it (real operator error)
 )
 
-var leafSeries = []int{3, 5, 40, 8} // series per shard; shard 2 exceeds leafLimit
+var leafSeries = []int{3, 5, 40, 8, 0, 0} // series per shard; shard 2 exceeds leafLimit
+
+// leafEmptyShards exist but have no data family in the range of any query of the workload (shard 4: no family at all,
+// shard 5: one family two days back): shardScanStage.Plan() returns nil for them, the stage has nothing to execute.
+var leafEmptyShards = []int{4, 5}
 
 // ---------------------------------------------------------------------------------------------
 // fault/gate control of one request, found by the wrappers through the query's time range
 
 type leafCase struct {
-	ID     int            `json:"id"`
-	Kind   string         `json:"kind"`  // data | metadata | bad-plan | not-leaf | no-db | bad-payload | no-metric
-	Query  string         `json:"query"` // plain | cond | groupby
-	Shards []int          `json:"shards"`
-	Fault  map[int]string `json:"fault"` // per shard: filter-err | filter-panic | load-panic | families-panic | filter-notfound
+	ID     int    `json:"id"`
+	Kind   string `json:"kind"`  // data | metadata | bad-plan | not-leaf | no-db | bad-payload | no-metric
+	Query  string `json:"query"` // plain | cond | groupby
+	Shards []int  `json:"shards"`
+	// Empty: shards without a data family in the query range that are part of the request as well (see leafEmptyShards)
+	Empty []int          `json:"empty_shards,omitempty"`
+	Fault map[int]string `json:"fault"` // per shard: filter-err | filter-panic | load-panic | families-panic | filter-notfound
 	// MetaFault: request level faults at the metadata database: point -> outcome (err | panic | notfound); points:
 	// get-metric-id, get-schema, find-tag-values (root stage), collect-tag-values (grouping collect after the scans).
 	MetaFault map[string]string `json:"meta_fault,omitempty"`
@@ -102,6 +109,7 @@ type leafCase struct {
 	taskCtx     context.Context // the request's task context, seen by the wrappers
 	onReqG      bool            // a fault panicked on the goroutine that runs leafTaskProcessor.Process
 	ignored     int             // not-found outcomes at plan nodes that ignore them
+	noFamilies  map[int]bool    // shards whose GetDataFamilies returned nothing for this request (observed)
 	metaDBCalls int
 }
 
@@ -547,6 +555,15 @@ func (w *wShard) GetDataFamilies(intervalType timeutil.IntervalType, timeRange t
 		return fams
 	}
 	id := int(w.ShardID())
+	if len(fams) == 0 {
+		lc.mu.Lock()
+		if lc.noFamilies == nil {
+			lc.noFamilies = map[int]bool{}
+		}
+		lc.noFamilies[id] = true
+		lc.events = append(lc.events, fmt.Sprintf("shard %d: no data family in the query range (the scan stage has no plan)", id))
+		lc.mu.Unlock()
+	}
 	if lc.Fault[id] == "families-panic" {
 		lc.fire(id, "families-panic")
 		lc.mu.Lock()
@@ -676,7 +693,7 @@ func newLeafEnv(dir string) (*leafEnv, error) {
 		Behind:    "2h", Ahead: "2h",
 	}
 	shardIDs := []models.ShardID{0, 1, 2, 3}
-	if err := engine.CreateShards(leafDB, opt, shardIDs...); err != nil {
+	if err := engine.CreateShards(leafDB, opt, append(append([]models.ShardID(nil), shardIDs...), 4, 5)...); err != nil {
 		return nil, fmt.Errorf("create shards: %w", err)
 	}
 	db, _ := engine.GetDatabase(leafDB)
@@ -736,6 +753,12 @@ func newLeafEnv(dir string) (*leafEnv, error) {
 					return nil, fmt.Errorf("flush family: %w", err)
 				}
 			}
+		}
+	}
+	// shard 5: a data family far outside every query range of the workload
+	if shard, ok := db.GetShard(5); ok {
+		if _, err := shard.GetOrCrateDataFamily(env.t0 - 48*3600_000); err != nil {
+			return nil, fmt.Errorf("family of the empty shard: %w", err)
 		}
 	}
 	// the workload needs a healthy metric: schema with the field and both tag keys
@@ -876,6 +899,18 @@ func leafCaseOf(seed int64, idx int, free bool) *leafCase {
 			lc.Short = true
 		}
 	}
+	// shards without a data family in the query range next to the others (own random stream: the rest of the case list
+	// is what it was without them); not in the case whose only failure must be the collection in the last Complete()
+	if re := newRandSrc(seed*15485863 + int64(idx)*32452843 + 7); lc.MetaFault["collect-metadb"] == "" && re.intn(3) == 0 {
+		switch re.intn(4) {
+		case 0:
+			lc.Empty = []int{4}
+		case 1:
+			lc.Empty = []int{5}
+		default:
+			lc.Empty = []int{4, 5}
+		}
+	}
 	// release order
 	lc.Release = append([]int(nil), lc.Shards...)
 	for i := len(lc.Release) - 1; i > 0; i-- {
@@ -930,7 +965,7 @@ func (lc *leafCase) key() string {
 	for _, s := range lc.Shards {
 		fs = append(fs, fmt.Sprintf("%d:%s:%s", s, lc.Fault[s], lc.IndexFault[s]))
 	}
-	return hashKey("leaf", lc.Kind, lc.Query, strings.Join(fs, ","), fmt.Sprint(lc.MetaFault), fmt.Sprint(lc.Release), fmt.Sprint(lc.Gated, lc.Paced))
+	return hashKey("leaf", lc.Kind, lc.Query, strings.Join(fs, ","), fmt.Sprint(lc.MetaFault), fmt.Sprint(lc.Release), fmt.Sprint(lc.Gated, lc.Paced), fmt.Sprint(lc.Empty))
 }
 
 // leafOutcome is what the leaf oracle judges.
@@ -952,6 +987,50 @@ type leafOutcome struct {
 	CtxDone  string `json:"task_context_done,omitempty"`    // Err() of the request's task context at the end
 	OnReqG   bool   `json:"panic_on_request_goroutine,omitempty"`
 	Ignored  int    `json:"not_found_ignored,omitempty"`
+	// NoFamilies: shards of the request for which GetDataFamilies returned nothing (their scan stage has no plan).
+	NoFamilies []int `json:"shards_without_family_in_range,omitempty"`
+	// Early: the first observation (pools settled, i.e. a logical point of the schedule) at which a response of the
+	// request existed while scan stages of other shards were still parked inside their Filter operator.
+	Early *leafEarly `json:"response_while_shards_parked,omitempty"`
+	// ParkedWithEmpty: at the first settled point shards were parked at their gate and an empty shard's stage had been planned
+	ParkedWithEmpty bool `json:"-"`
+}
+
+type leafEarly struct {
+	Responses   int      `json:"responses"`
+	Parked      []int    `json:"shards_parked_in_filter"`
+	Released    []int    `json:"gates_opened_before"`
+	PanicsFired []string `json:"panics_fired_before,omitempty"`
+}
+
+// observeEarly is called at settled points of a gated request (every task on the four pools consumed or parked at a gate).
+func (e *leafEnv) observeEarly(lc *leafCase, out *leafOutcome) {
+	lc.mu.Lock()
+	var parked []int
+	for s := range lc.parked {
+		parked = append(parked, s)
+	}
+	var panics []string
+	for _, f := range lc.fired {
+		if strings.Contains(f, "panic") {
+			panics = append(panics, f)
+		}
+	}
+	if lc.onReqG {
+		panics = append(panics, "panic on the request goroutine")
+	}
+	empties := len(lc.noFamilies)
+	lc.mu.Unlock()
+	sort.Ints(parked)
+	if len(parked) > 0 && empties > 0 {
+		out.ParkedWithEmpty = true
+	}
+	if out.Early != nil || len(parked) == 0 {
+		return
+	}
+	if n := len(e.stream.responses(out.ReqID)); n > 0 {
+		out.Early = &leafEarly{Responses: n, Parked: parked, Released: append([]int(nil), out.Released...), PanicsFired: panics}
+	}
 }
 
 func (e *leafEnv) run(lc *leafCase) *leafOutcome {
@@ -971,8 +1050,14 @@ func (e *leafEnv) run(lc *leafCase) *leafOutcome {
 		e.mu.Unlock()
 	}()
 
-	shardIDs := make([]models.ShardID, len(lc.Shards))
-	for i, s := range lc.Shards {
+	all := append(append([]int(nil), lc.Shards...), lc.Empty...)
+	sort.Ints(all)
+	// (the position of the empty shards among the targets varies with the case: first, last, in between)
+	if len(lc.Empty) > 0 && lc.ID%3 == 1 {
+		all = append(append([]int(nil), lc.Empty...), lc.Shards...)
+	}
+	shardIDs := make([]models.ShardID, len(all))
+	for i, s := range all {
 		shardIDs[i] = models.ShardID(s)
 	}
 	receiver, stream := leafReceiver, e.stream
@@ -1055,6 +1140,9 @@ func (e *leafEnv) run(lc *leafCase) *leafOutcome {
 	}
 	pipeline := query.GetPipelineManager().GetPipeline(out.ReqID)
 	if lc.Gated && out.Watchdog == "" {
+		e.observeEarly(lc, out)
+	}
+	if lc.Gated && out.Watchdog == "" {
 		out.Ordered = lc.Paced
 		for _, s := range lc.Release {
 			if !lc.release(s) {
@@ -1067,6 +1155,7 @@ func (e *leafEnv) run(lc *leafCase) *leafOutcome {
 					out.Watchdog = "pools did not settle after a gate was opened"
 					break
 				}
+				e.observeEarly(lc, out)
 			}
 		}
 	}
@@ -1148,6 +1237,10 @@ func (e *leafEnv) run(lc *leafCase) *leafOutcome {
 	}
 	out.OnReqG = lc.onReqG
 	out.Ignored = lc.ignored
+	for s := range lc.noFamilies {
+		out.NoFamilies = append(out.NoFamilies, s)
+	}
+	sort.Ints(out.NoFamilies)
 	lc.mu.Unlock()
 	return out
 }
@@ -1178,6 +1271,20 @@ func judgeLeaf(out *leafOutcome) (vs []viol, facts map[string]int) {
 	}
 	if n > 1 {
 		add(clsLeafTwo+"/"+lc.Kind, "request %s (%s) got %d responses: %+v", out.ReqID, lc.Kind, n, out.Responses)
+	}
+	if len(out.NoFamilies) > 0 {
+		facts["leaf_requests_with_shard_without_family_in_range"] = 1
+		facts["leaf_shard_scan_stages_without_plan"] = len(out.NoFamilies)
+		if out.ParkedWithEmpty {
+			facts["leaf_shard_without_family_planned_while_other_shards_parked"] = 1
+		}
+	}
+	// only after every started stage has finished (when no stage panicked): a response while the scan stage of a shard
+	// is still inside its Filter operator.  (Not for requests with the short deadline: their deadline may answer.)
+	if out.Early != nil && len(out.Early.PanicsFired) == 0 && !lc.Short {
+		add(clsLeafEarly, "request %s (%s) was answered (%d responses, error %q) while the scan stages of shards %v were still parked inside their Filter operator "+
+			"(gates opened before: %v) and nothing had panicked; shards of the request without a data family in the range: %v",
+			out.ReqID, lc.Kind, out.Early.Responses, out.Responses[0].ErrMsg, out.Early.Parked, out.Early.Released, out.NoFamilies)
 	}
 	resp := out.Responses[0]
 	if !resp.Completed {
@@ -1229,6 +1336,9 @@ func judgeLeaf(out *leafOutcome) (vs []viol, facts map[string]int) {
 	switch {
 	case len(failed) > 0:
 		facts["leaf_requests_with_failing_shard"] = 1
+		if len(out.NoFamilies) > 0 {
+			facts["leaf_requests_with_failing_shard_and_shard_without_family"] = 1
+		}
 		order, _, haveStats := stageOrder(out)
 		toldStateMachine := haveStats && strings.Contains(order, "=Error")
 		// Which stage the state machine counted down last is known only from the schedule the harness enforced: in a
@@ -1481,6 +1591,8 @@ func childLeaf(args []string) {
 	if risky {
 		core0 = 1
 	}
+	// requests the harness cannot judge cost a watchdog each: after a few of them stop and report what was judged
+	unjudged, skipped := 0, 0
 	parallel(len(list), core0, func(k int) {
 		i := list[k]
 		free := race || i%5 == 4
@@ -1488,10 +1600,19 @@ func childLeaf(args []string) {
 		if lc.risky() != risky {
 			return
 		}
+		a.mu.Lock()
+		stop := unjudged >= maxUnjudgedCases
+		if stop {
+			skipped++
+		}
+		a.mu.Unlock()
+		if stop {
+			return
+		}
 		if risky {
 			defer a.write(resFile) // keep what was judged so far: the next request may end the process
 		}
-		logf(fmt.Sprintf("leaf case %d kind=%s query=%s shards=%v fault=%v release=%v gated=%v", i, lc.Kind, lc.Query, lc.Shards, lc.Fault, lc.Release, lc.Gated))
+		logf(fmt.Sprintf("leaf case %d kind=%s query=%s shards=%v empty=%v fault=%v release=%v gated=%v", i, lc.Kind, lc.Query, lc.Shards, lc.Empty, lc.Fault, lc.Release, lc.Gated))
 		out := env.run(lc)
 		vs, facts := judgeLeaf(out)
 		a.mu.Lock()
@@ -1500,8 +1621,11 @@ func childLeaf(args []string) {
 		if len(a.res.Samples) < 1 && facts["leaf_requests_with_failing_shard"] > 0 {
 			a.res.Samples = append(a.res.Samples, map[string]interface{}{"leaf_case": lc, "responses": len(out.Responses), "events": out.Events})
 		}
-		if out.Watchdog != "" && len(a.res.Inconclusive) < 5 {
-			a.res.Inconclusive = append(a.res.Inconclusive, fmt.Sprintf("leaf case %d: %s", i, out.Watchdog))
+		if out.Watchdog != "" {
+			unjudged++
+			if len(a.res.Inconclusive) < 5 {
+				a.res.Inconclusive = append(a.res.Inconclusive, fmt.Sprintf("leaf case %d: %s", i, out.Watchdog))
+			}
 		}
 		a.mu.Unlock()
 		for k, v := range facts {
@@ -1511,6 +1635,9 @@ func childLeaf(args []string) {
 			a.violation(v.Class, v.Msg, func() interface{} { return out })
 		}
 	})
+	if skipped > 0 {
+		a.res.Inconclusive = append(a.res.Inconclusive, fmt.Sprintf("%d leaf requests could not be judged (see above); the remaining %d requests of this child were not run", unjudged, skipped))
+	}
 	a.write(resFile)
 	_ = lf.Close()
 	os.Exit(0) // do not wait for the engine's background goroutines
